@@ -70,8 +70,9 @@ def verify_all(fake, creds, host, sig0, detail0, start=0, only_complete=True):
     for i, r in enumerate(fake.requests[start:], start):
         if not r.complete:
             continue
+        rhost = r.host.decode('ascii', 'replace') if isinstance(r.host, bytes) else r.host
         probs = sigv4.verify(r.method, r.target, r.headers, r.body, secret=secret, expect_key_id=key_id,
-                             expect_region=region, expect_host=host)
+                             expect_region=region, expect_host=host if rhost == host else rhost)
         for p in probs:
             q = r.target.partition(b'?')[2]
             vs.append((dict(sig0, what=p, method=r.method, has_query=bool(q),
@@ -178,7 +179,93 @@ def fault_case(args):
     return len(fake.requests), vs
 
 
+OPS = ('exists', 'upload', 'upload_stream', 'download', 'download_stream', 'list', 'delete')
+OP_FAULTS = ('500', '503', '429', 'connect', 'protocol', 'drop-response', 'redirect-307-same', 'redirect-301-same',
+             'redirect-307-other', 'redirect-302-other', 'redirect-308-same')
+
+
+def op_fault_case(args):
+    """One fault (incl. 3xx answers a client library might follow by itself) at the j-th request of one
+    adapter operation; every request that then reaches the wire - retries and any request a redirect
+    produces - must verify."""
+    op, kind_fault, j, creds = args
+    Clock.now = CLOCKS['leap']
+    sig0 = {'part': 'op-fault', 'op': op, 'fault': kind_fault.split('-')[0] if kind_fault.startswith('redirect') else kind_fault}
+    detail0 = {'op': op, 'fault': kind_fault, 'j': j}
+    out = {}
+    name = 'data/aa/we ird+obj'
+
+    async def go():
+        c, fake, h = make_client('s3c', 'https', 'minio.test:9000', creds)
+        out['fake'], out['host'] = fake, h
+        data = bytes(range(97))
+        fake.o[name] = data
+        fake.o['data/aa/second'] = b'2'
+        fake.o['data/aa/third'] = b'3'
+        out['start'] = len(fake.requests)
+        state = {'n': 0}
+
+        def fault(idx, rec):
+            host = rec.host.decode() if isinstance(rec.host, bytes) else rec.host
+            if host != h:
+                return None
+            state['n'] += 1
+            if state['n'] != j + 1:
+                return None
+            path, _, q = rec.target.decode('ascii').partition('?')
+            if kind_fault in ('500', '503', '429'):
+                return FS.Fault('status', code=int(kind_fault))
+            if kind_fault == 'connect':
+                return FS.Fault('connect-error')
+            if kind_fault == 'protocol':
+                return FS.Fault('protocol-error')
+            if kind_fault == 'drop-response':
+                return FS.Fault('drop-response-after', k=0)
+            _, code, where = kind_fault.split('-')
+            if where == 'same':
+                loc = path + '/' + ('?' + q if q else '')
+            else:
+                loc = 'https://other-endpoint.test:9443' + path + ('?' + q if q else '')
+            return FS.Fault('status', code=int(code), headers={'location': loc}, body=b'<Error><Code>TemporaryRedirect</Code></Error>')
+
+        fake.fault_fn = fault
+        fake.reset_budget(60)
+        if op == 'exists':
+            await c.exists(name)
+        elif op == 'upload':
+            await c.upload(name, data)
+        elif op == 'upload_stream':
+            await c.upload_stream(name, io.BytesIO(data), len(data), 40)
+        elif op == 'download':
+            await c.download(name)
+        elif op == 'download_stream':
+            await c.download_stream(name, io.BytesIO(), 16)
+        elif op == 'list':
+            [x async for x in c.list_files('data/aa/')]
+        elif op == 'delete':
+            await c.delete(name)
+        await c.close()
+
+    try:
+        W.run(go)
+    except Exception as e:
+        out['exc'] = repr(e)[:200]     # an error is allowed here (C12 bounds it); an ill-signed request is not
+    fake = out.get('fake')
+    if fake is None:
+        return 0, [(dict(sig0, what='harness'), dict(detail0, err=out.get('exc')))]
+    vs = verify_all(fake, creds, out['host'], sig0, detail0, start=out.get('start', 0))
+    return len(fake.requests), vs
+
+
 def replay(case):
+    if 'op' in case:
+        creds = ('AKIDEXAMPLE', 'wJalrXUtnFEMI/K7MDENG+bPxRfiCYEXAMPLEKEY', 'us-east-1')
+        n, vs = op_fault_case((case['op'], case['fault'], case['j'], creds))
+        return {'violations': [v[0] for v in vs][:5]}
+    return _replay_other(case)
+
+
+def _replay_other(case):
     if 'class' in case:
         creds = ('AKIDEXAMPLE', 'wJalrXUtnFEMI/K7MDENG+bPxRfiCYEXAMPLEKEY', 'us-east-1')
         n, vs = name_case((case['class'], case['kind'], case['scheme'], case['host'], creds, case['clock']))
@@ -214,6 +301,13 @@ def main():
         nreq += n
         for sig, d in vs:
             chk.violation(sig, d)
+    ocases = [(op, kf, j, credsets[0]) for op in OPS for kf in OP_FAULTS for j in ((0, 1) if op == 'list' or t != 'quick' else (0,))]
+    for n, vs in common.pmap(op_fault_case, ocases, ordered=False):
+        nreq += n
+        for sig, d in vs:
+            chk.violation(sig, d)
+    fcases = fcases + ocases
+    chk.sample({'op': 'list', 'fault': 'redirect-307-same', 'j': 1})
     chk.sample({'class': 'space', 'name': 'dir/we ird/leaf', 'kind': 's3c', 'scheme': 'https', 'host': 'minio.test:9000', 'clock': 'midnight'})
     chk.sample({'fault': 'reset-mid-body', 'after_request_chunks': 1, 'chunks': 3})
     chk.coverage.update({
